@@ -195,7 +195,7 @@ pub fn run(tier: Tier) -> i32 {
      CBOR data-model universe (integers at all head-width boundaries, strings, all simple values classes, floats of all widths incl. \
      ±0/inf/NaN, tags, nested arrays/maps incl. duplicate and equivalent keys) every encoding with <=2 deviations from preferred \
      (non-minimal head, indefinite length, chunking into <=3 chunks, wider float), every proper prefix and every single-byte \
-     substitution (24-byte alphabet, every position) of each encoding with <= {} deviations; byte strings deduplicated per value. Space C: indefinite-length text and byte strings cut into 1-3 chunks at every byte position (also inside multi-byte characters), both chunk-head widths, alone and nested in array / map / indefinite map / tag. Space D: strings, arrays and maps with 0,1,23,24,25,255,256,257,4095,4096,4097 (thorough: ..65537) elements under every admissible head width and indefinite length, complete, one element short, one element over, and followed by a sibling. Oracle: independent RFC 8949 Appendix-C style decoder; Ok/Err equality and \
+     substitution (24-byte alphabet, every position) of each encoding with <= {} deviations; byte strings deduplicated per value. Space C: indefinite-length text and byte strings cut into 1-3 chunks at every byte position (also inside multi-byte characters), both chunk-head widths, alone and nested in array / map / indefinite map / tag. Space D: strings, arrays and maps with 0,1,23,24,25,255,256,257,4095,4096,4097 (thorough: ..65537) elements under every admissible head width and indefinite length, complete, one element short, one element over, and followed by a sibling. Space E: text and byte strings whose payload crosses a 4096-byte block edge with a 2-4 byte character at every offset around the edge (definite, one chunk, cut inside the character, as map key and value), flat arrays / indefinite arrays / maps of 16..400 tagged items, and tag, array and map nests 16..300 deep. Oracle: independent RFC 8949 Appendix-C style decoder; Ok/Err equality and \
      data-model value equality (NaN payload ignored). transition = append one byte (A) / apply one deviation, truncation or substitution (B). \
      non-trivial = distinct inputs that begin with a well-formed item (the reference returns a value).",
     value_universe(tier).len(),
@@ -404,6 +404,72 @@ pub fn run(tier: Tier) -> i32 {
         b.push(0xff);
         cases.push(b);
       }
+    }
+  }
+  // space E: long and wide items. (1) text / byte strings whose payload crosses a 4096-byte block with a 2-4 byte
+  // character at every offset around the block edge (definite, as one chunk, and cut inside the character);
+  // (2) flat containers holding 16..400 tagged items, and tag / array nests 16..300 deep.
+  for (ch, w) in [("\u{e9}", 2usize), ("\u{20ac}", 3), ("\u{1F600}", 4)] {
+    for k in [1usize, 2] {
+      for p in (4096 * k - w - 1)..=(4096 * k + 1) {
+        for tail in [0usize, 1, 5] {
+          let mut payload = vec![b'a'; p];
+          payload.extend_from_slice(ch.as_bytes());
+          payload.extend(std::iter::repeat(b'b').take(tail));
+          for mt in [3u8, 2] {
+            let mut b = head(mt, payload.len() as u64, 2).unwrap();
+            b.extend_from_slice(&payload);
+            cases.push(b.clone());
+            let mut ind = vec![(mt << 5) | 31];
+            ind.extend_from_slice(&b);
+            ind.push(0xff);
+            cases.push(ind);
+            // two chunks cut one byte into the character (text: each chunk must be valid UTF-8 on its own)
+            let cut = p + 1;
+            let mut two = vec![(mt << 5) | 31];
+            two.extend(head(mt, cut as u64, 2).unwrap());
+            two.extend_from_slice(&payload[..cut]);
+            two.extend(head(mt, (payload.len() - cut) as u64, 2).unwrap());
+            two.extend_from_slice(&payload[cut..]);
+            two.push(0xff);
+            cases.push(two);
+            // as a map value after a long key
+            let mut m = vec![0xa1];
+            m.extend_from_slice(&b);
+            m.extend_from_slice(&b);
+            cases.push(m);
+          }
+        }
+      }
+    }
+  }
+  for n in [16usize, 64, 255, 256, 257, 300, 400] {
+    let mut arr = head(4, n as u64, 2).unwrap();
+    let mut ind = vec![0x9f];
+    let mut map = head(5, n as u64, 2).unwrap();
+    for i in 0..n {
+      arr.extend_from_slice(&[0xc1, 0x01]);
+      ind.extend_from_slice(&[0xd8, 0x20, 0x61, 0x75]);
+      map.extend(head(0, i as u64, 0).or_else(|| head(0, i as u64, 1)).or_else(|| head(0, i as u64, 2)).unwrap());
+      map.extend_from_slice(&[0xc2, 0x41, 0x01]);
+    }
+    ind.push(0xff);
+    cases.push(arr);
+    cases.push(ind);
+    cases.push(map);
+    if n <= 300 {
+      let mut tags = vec![0xc1; n];
+      tags.push(0x01);
+      cases.push(tags);
+      let mut nest = vec![0x81; n];
+      nest.push(0x01);
+      cases.push(nest);
+      let mut mnest = vec![];
+      for _ in 0..n {
+        mnest.extend_from_slice(&[0xa1, 0x00]);
+      }
+      mnest.push(0x01);
+      cases.push(mnest);
     }
   }
   let accs = par_sweep(cases.len(), 8, Acc::default, |i, a: &mut Acc| note(a, &cases[i]));
